@@ -2,6 +2,7 @@ import Rbp.Proofs.OpReturn
 import Rbp.Proofs.RunSpec
 import Rbp.Proofs.Lossy
 import Rbp.Proofs.Utf8Spec
+import Rbp.Props.C10
 /-!
 # C16 — opreturn prints exactly the non-empty UTF-8 payloads, in chain order
 -/
@@ -82,5 +83,17 @@ example : L.valid [0xC3, 0xA9, 0xE2, 0x82, 0xAC, 0xF0, 0x9F, 0x98, 0x80] = true 
 /-- non-vacuity: the 76..80 byte range needs PUSHDATA1 and is well-formed there, not as a direct push -/
 example : (T.Tok.push .pd1 (List.replicate 80 0x41)).WF ∧ ¬ (T.Tok.push .direct (List.replicate 80 0x41)).WF := by
   simp [T.Tok.WF, T.Form.width]
+
+
+/-- **every input.**  Whenever an `opreturn` run exits 0, what it printed is `opreturnLines` over exactly the delivered blocks, in
+    chain order (no file is written) -/
+theorem exit0_lines_are_those_of_delivered (o : Run.Opts) (key : Option W.Bytes) (kvs : List (W.Bytes × W.Bytes)) (files : List Run.BlkFile)
+    (coin : Run.Coin) (hcoin : Run.coinOf o.coin = some coin) (hcb : o.callback = "opreturn")
+    (h0 : (Run.run o key kvs files).exit = 0) :
+    (Run.run o key kvs files).stdout = opreturnLines coin.version (Run.deliveredBlocks o key kvs files) ∧
+    (Run.run o key kvs files).files = [] := by
+  obtain ⟨hf, hs⟩ := Rbp.Props.C10.exit0_output_is_callback_over_delivered o key kvs files coin hcoin h0
+  rw [hf, hs]
+  simp [Run.callbackOut, hcb]
 
 end Rbp.Props.C16
